@@ -18,6 +18,7 @@ CONSTANTS
   MaxForce = 0
   MaxLag = 0
   MaxProbes = 0
+  MaxReorg = 0
   ExportOn = TRUE
   SampleMod = 60
 INIT Init
